@@ -59,3 +59,111 @@ CASES = [
          edits=[("    if daglish.is_memoizable(new_value) or daglish.is_memoizable(old_value):",
                  "    if daglish.is_memoizable(old_value) or daglish.is_memoizable(new_value):")]),
 ]
+
+CD = 'fiddle/_src/codegen/codegen_diff.py'
+H = 'fiddle/_src/history.py'
+T = 'fiddle/_src/tagging.py'
+MB = 'fiddle/_src/mutate_buildable.py'
+SA = 'fiddle/_src/codegen/auto_config/split_arg_factories.py'
+CASES += [
+    # C13 modified paths
+    dict(id='c13-benign-modified-paths-setcomp', prop='C13', file=CD,
+         expect='silent',
+         edits=[("    modified_paths = set([change.target for change in diff.changes])",
+                 "    modified_paths = {op.target for op in diff.changes}")]),
+    dict(id='c13-benign-modified-paths-no-tags', prop='C13', file=CD,
+         expect='silent',
+         edits=[("    modified_paths = set([change.target for change in diff.changes])",
+                 "    modified_paths = set(\n        change.target for change in diff.changes\n        if not isinstance(change, (diffing.AddTag, diffing.RemoveTag)))")]),
+    dict(id='c13-modified-paths-only-modify', prop='C13', file=CD,
+         expect='violation', names='EXH.modified-paths',
+         edits=[("    modified_paths = set([change.target for change in diff.changes])",
+                 "    modified_paths = set(\n        change.target for change in diff.changes\n        if isinstance(change, diffing.ModifyValue))")]),
+    # C10 / C14 facets
+    dict(id='c10-facet-args-skipped-when-callable-differs', prop='C10', file=F,
+         expect='violation', names='INDEP.buildable-facets',
+         edits=[("""          ModifyValue(old_callable_path, config_lib.get_callable(new_value)))
+
+    if old_value.__argument_tags__""", """          ModifyValue(old_callable_path, config_lib.get_callable(new_value)))
+      if not new_value.__arguments__:
+        return
+
+    if old_value.__argument_tags__""")]),
+    dict(id='c14-benign-tags-compared-first', prop='C14', file=F,
+         expect='silent',
+         edits=[("""    if config_lib.get_callable(old_value) != config_lib.get_callable(new_value):
+      old_callable_path = old_path + (daglish.BuildableFnOrCls(),)
+      self.changes.append(
+          ModifyValue(old_callable_path, config_lib.get_callable(new_value)))
+
+    if old_value.__argument_tags__ != new_value.__argument_tags__:
+      self.record_tag_diffs(old_path, old_value, new_value)
+""", """    if old_value.__argument_tags__ != new_value.__argument_tags__:
+      self.record_tag_diffs(old_path, old_value, new_value)
+
+    if config_lib.get_callable(old_value) != config_lib.get_callable(new_value):
+      old_callable_path = old_path + (daglish.BuildableFnOrCls(),)
+      self.changes.append(
+          ModifyValue(old_callable_path, config_lib.get_callable(new_value)))
+""")]),
+    dict(id='c14-benign-tags-unconditional', prop='C14', file=F,
+         expect='silent',
+         edits=[("""    if old_value.__argument_tags__ != new_value.__argument_tags__:
+      self.record_tag_diffs(old_path, old_value, new_value)
+""", """    self.record_tag_diffs(old_path, old_value, new_value)
+""")]),
+    # C16
+    dict(id='c16-benign-suspend-saved-renamed', prop='C16', file=H,
+         expect='silent',
+         edits=[("  previous_enabled = tracking_enabled()\n", "  was_enabled = tracking_enabled()\n"),
+                ("    set_tracking(enabled=previous_enabled)", "    set_tracking(enabled=was_enabled)")]),
+    dict(id='c16-store-pop-outside-primitives', prop='C16', file=MB,
+         expect='violation', names='WMC.argument-store-writers',
+         edits=[("          delattr(buildable, arg)",
+                 "          buildable.__arguments__.pop(arg)")]),
+    # C17 codegen callbacks
+    dict(id='c17-benign-lowered-copy-consistently', prop='C17', file=SA,
+         expect='silent',
+         edits=[("""      value = copy.copy(value)
+      for key, arg_value in arguments.items():
+        if isinstance(key, str):
+          setattr(value, key, arg_value)
+        elif isinstance(key, int):
+          value[key] = arg_value
+        else:
+          raise TypeError(f'Unknown key type: {key}')
+      return value""", """      lowered = copy.copy(value)
+      for key, arg_value in arguments.items():
+        if isinstance(key, str):
+          setattr(lowered, key, arg_value)
+        elif isinstance(key, int):
+          lowered[key] = arg_value
+        else:
+          raise TypeError(f'Unknown key type: {key}')
+      return lowered""")]),
+    # C19
+    dict(id='c19-build-guard-rebound', prop='C19', file=B, expect='violation',
+         names='rebinds the module-level name',
+         edits=[("def _in_build():\n", "def _in_build():\n  global _state\n"),
+                ("  finally:\n    _state.in_build = False\n",
+                 "  finally:\n    _state = _BuildGuardState()\n")]),
+    # C20
+    dict(id='c20-benign-extract-after-rebuild-local', prop='C20', file=T,
+         expect='silent',
+         edits=[("""    value = state.map_children(value)
+    if isinstance(value, TaggedValueCls) and value.value != NO_VALUE and (
+        tags is None or set(value.tags) & tags):
+      return value.value
+""", """    value = state.map_children(value)
+    if isinstance(value, TaggedValueCls) and value.value != NO_VALUE and (
+        tags is None or set(value.tags) & tags):
+      payload = value.value
+      return payload
+""")]),
+    # C03
+    dict(id='c03-benign-compaction-local-source', prop='C03', file=C,
+         expect='silent',
+         edits=[("""          new_value = self.__arguments__[new_placeholders[index].index]
+          self._arguments_set_value(index, new_value)""", """          source = new_placeholders[index].index
+          self._arguments_set_value(index, self.__arguments__[source])""")]),
+]
